@@ -26,7 +26,7 @@ import (
 // Every program (with its in-memory import set) is handed to three different chunks of
 // the case list, hence normally to three different worker processes (different map hash
 // seeds), each with a different GOMAXPROCS (1, 4, 16). A worker compiles it 3× one after
-// another and then 8× from 8 goroutines at once while two neighbour programs are being
+// another and then 6× from 6 goroutines at once while two neighbour programs are being
 // compiled concurrently by further goroutines. Oracle:
 //   same-process.sequential   all sequential outcomes identical
 //   same-process.concurrent   every concurrent outcome identical to the sequential one
@@ -57,11 +57,11 @@ type c08Obs struct {
 func init() {
 	run.Register(&run.Check{
 		ID: "C08", Title: "Compilation is deterministic",
-		LevelText: "Exploration under the race detector: hundreds (quick) to tens of thousands (thorough) of generated programs of the full language (globs, vars, classes, boards, imports from an in-memory file set) and the repository's scripts are each compiled 3× sequentially and 8× concurrently (next to other compilations) in three different worker processes with GOMAXPROCS 1, 4 and 16; all outcomes (canonical projection of the graph and configuration, or the ordered error list) must be identical within a process and across processes, and the race detector must stay silent.",
+		LevelText: "Exploration under the race detector: hundreds (quick) to tens of thousands (thorough) of generated programs of the full language (globs, vars, classes, boards, imports from an in-memory file set) and the repository's scripts are each compiled 3× sequentially and 6× concurrently (next to other compilations) in three different worker processes with GOMAXPROCS 1, 4 and 16; all outcomes (canonical projection of the graph and configuration, or the ordered error list) must be identical within a process and across processes, and the race detector must stay silent.",
 		Technique: "runtime monitoring: run-to-run / cross-process / concurrent metamorphic oracle + Go race detector",
 		DesignRef: "§4 C08",
 		Rule:      "cases: gen.Program(lang, with imports) + corpus, each as 3 copies placed in different chunks; distinct by sha256(text+files); non-trivial when the outcome is a graph with ≥3 objects or an error list with ≥2 entries, and the 3 copies were observed",
-		Race:      true, Chunk: 12, MinNontrivial: 50, CPUBudget: 120,
+		Race:      true, Chunk: 5, MinNontrivial: 20, CPUBudget: 120,
 		Gen:  genC08,
 		Exec: execC08,
 		Post: postC08,
@@ -70,7 +70,7 @@ func init() {
 
 func genC08(seed int64, tier string, emit func(run.Case)) {
 	r := gen.New(seed)
-	n := tierN(tier, 360, 20000)
+	n := tierN(tier, 70, 6000)
 	type prog struct {
 		text  string
 		files map[string]string
@@ -158,7 +158,7 @@ func execC08(c run.Case) (res run.Result) {
 			break
 		}
 	}
-	const conc = 8
+	const conc = 6
 	outs := make([]string, conc)
 	kinds := make([]string, conc)
 	var wg sync.WaitGroup
